@@ -218,3 +218,5 @@ PROP = Prop(
     assumptions=["threshold equivariance under negation only for method='linear'",
                  "EER equivariance only for tie-free inputs (see C06)"],
 )
+
+RULE_EXTRA = ('thresholds held in float32/float16; per-group queries before swap() (GroupScores).')
